@@ -301,6 +301,13 @@ func init() {
 		},
 		Setup: func(c *core.Ctx) {
 			textwire.VerifReset()
+			// hold15 keeps a render where it is until every goroutine of a held burst has arrived (or two seconds passed)
+			textwire.RegisterStrFunc("hold15", func(s string, args ...any) string {
+				if b := heldBarrier.Load(); b != nil {
+					b.arrive()
+				}
+				return s
+			})
 			textwire.RegisterIntFunc("pause", func(i int, args ...any) int {
 				switch {
 				case i%3 == 0:
@@ -462,6 +469,9 @@ func init() {
 				}
 				freshLoadBurst(c, i)
 				bigInputBurst(c, tpl, i)
+				if i%4 == 0 {
+					heldBurst(c, i)
+				}
 				c.Count("operations_in_histories", len(all))
 				c.Count("operations_overlapping_another_kind", overlapped)
 				if i < 4 {
@@ -792,4 +802,62 @@ func c15RowB(n int64) any {
 		Qty  int64
 	}
 	return &row{Num: n, Note: fmt.Sprintf("note%d", n), Qty: n + 1}
+}
+
+// a barrier that renders reach from inside a registered function
+type holdBarrier struct {
+	mu      sync.Mutex
+	waiting int
+	want    int
+	release chan struct{}
+}
+
+func (b *holdBarrier) arrive() {
+	b.mu.Lock()
+	b.waiting++
+	if b.waiting == b.want {
+		close(b.release)
+	}
+	b.mu.Unlock()
+	select {
+	case <-b.release:
+	case <-time.After(2 * time.Second): // (a watchdog against a stuck run, not an oracle)
+	}
+}
+
+var heldBarrier atomic.Pointer[holdBarrier]
+
+// heldBurst: 48 goroutines each evaluate an expression nested about 1500 deep whose innermost operand calls a
+// registered function that waits for all of them, so that all the deep evaluations are in flight at the same
+// moment; each must return what the same evaluation returns alone
+func heldBurst(c *core.Ctx, round int) {
+	const G, depth = 48, 1500
+	src := "{{ \"v\".hold15().len()" + strings.Repeat(" + 1", depth) + " }}|@if(true)@if(true)@if(true)@each(k in [1])@if(k){{ who.hold15() }}@end@end@end@end@end"
+	want := make([]string, G)
+	for g := 0; g < G; g++ {
+		out, err := textwire.EvaluateString(src, map[string]any{"who": fmt.Sprintf("h%d", g)})
+		want[g] = fmt.Sprintf("%s|%v", out, err)
+	}
+	b := &holdBarrier{want: G, release: make(chan struct{})}
+	heldBarrier.Store(b)
+	defer heldBarrier.Store(nil)
+	got := make([]string, G)
+	var wg sync.WaitGroup
+	for g := 0; g < G; g++ {
+		wg.Add(1)
+		go func(g int) {
+			defer wg.Done()
+			out, err := textwire.EvaluateString(src, map[string]any{"who": fmt.Sprintf("h%d", g)})
+			got[g] = fmt.Sprintf("%s|%v", out, err)
+		}(g)
+	}
+	wg.Wait()
+	c.Eval(2 * G)
+	c.Count("deep_evaluations_held_in_flight_together", G)
+	for g := 0; g < G; g++ {
+		if got[g] != want[g] {
+			c.Violation("concurrent:held-in-flight", fmt.Sprintf("one of %d evaluations nested %d deep that were in flight together returned\n%s\nalone it returns\n%s", G, depth, clipS(got[g], 300), clipS(want[g], 300)), map[string]any{"round": round})
+			return
+		}
+	}
 }
